@@ -617,6 +617,7 @@ def run(repo: Repo, R: Report) -> None:
     spec_id_rules(repo, R, run_nf)
     g, loop, proc, launch_names = launch_bracket_rules(repo, R, run_nf)
     emitter_state_rules(repo, R)
+    handover_rules(repo, R)
     freshness_rules(repo, R, run_nf, g, loop, proc, launch_names)
     launch_id_rules(repo, R)
 
@@ -956,6 +957,360 @@ def emitter_state_rules(repo: Repo, R: Report) -> None:
                 R.violation(r_es, EMITTER, qual, norm(stmt_of(n)), f"module-level container `{n.id}` is consulted / filled while emitting: it outlives the emitter, so records of a later launch are affected by earlier ones", n.lineno)
             elif isinstance(n, ast.Call) and call_name(n) == "type" and len(n.args) == 1 and isinstance(n.args[0], ast.Name) and n.args[0].id == me:
                 R.violation(r_es, EMITTER, qual, norm(stmt_of(n)), "run-space emission goes through class-level state shared by every emitter of the process", n.lineno)
+
+
+# ----------------------------------------------------- D5 hand-over: _run -> emitter -> driver -> written record
+#
+# The launch bracket (D2), the per-run linkage (D3) and the ids (D1, D4) are decided where the values are *computed*
+# (cli._run, execute, the identity service).  They reach the trace only through two hand-overs: the emitter passes them
+# to the driver, the driver stores them into the record it writes.  Both sides of each hand-over must agree that the
+# value travels as it is: ids / attempt / index unchanged (and kept when they are 0), the end summary entry by entry,
+# the run context key by key.
+
+_LEVEL = {"same": 0, "copy": 1, "keywise": 2, "other": 3}
+JSONL_DRIVER_METHODS = ("on_pipeline_start", "on_run_space_start", "on_run_space_end")
+
+
+def _is_empty(e: Optional[ast.AST]) -> bool:
+    """None / an empty container: what stands for 'nothing handed over'."""
+    if e is None or _is_none(e):
+        return True
+    if isinstance(e, ast.Dict):
+        return not e.keys
+    if isinstance(e, (ast.List, ast.Tuple, ast.Set)):
+        return not e.elts
+    return isinstance(e, ast.Call) and call_name(e) in ("dict", "list", "tuple") and not e.args and not e.keywords
+
+
+def _resolve_bound(repo: Repo, mod, call: ast.Call) -> Optional[Tuple[object, ast.AST, Dict[str, ast.AST]]]:
+    """(module, def, parameter -> argument) of the one repo function *call* runs, or None."""
+    try:
+        targets = repo.resolve_call(mod, call)
+    except Exception:
+        targets = []
+    if len(targets) != 1 or not isinstance(targets[0][1], FuncNode):
+        return None
+    m, fn = targets[0]
+    f = call.func
+    in_class = isinstance(_parent(fn), ast.ClassDef) and not any(dotted_name(d) == "staticmethod" for d in fn.decorator_list)
+    bound = in_class and isinstance(f, ast.Attribute) and isinstance(f.value, ast.Name) and f.value.id in ("self", "cls")
+    b = _bind_args(fn, call, skip_first=bound)
+    return (m, fn, b) if b is not None else None
+
+
+def _carry(repo: Repo, mod, nf: ast.AST, e: Optional[ast.AST], p: str, depth: int = 2) -> Tuple[Optional[str], Optional[ast.AST]]:
+    """How expression *e* of *nf* carries the value of parameter *p*: ``same`` (the value itself; ``p or {}``),
+    ``copy`` (a new mapping with the same entries), ``keywise`` (a mapping with one entry per entry of *p*, values
+    transformed one by one), ``other`` (anything that may lose or replace content - with the sub-expression that
+    does), or None when *e* is only ever None / an empty container.  Locals are followed through their plain
+    assignments, conditional expressions / ``or`` are split (an empty alternative is allowed next to a carrying one),
+    a call of a repo function is decided on every value that function returns."""
+    rebound = any(isinstance(x, ast.Name) and x.id == p and isinstance(x.ctx, ast.Store) for x in ast.walk(nf))
+    busy: Set[str] = set()
+
+    def worst(parts: List[Tuple[Optional[str], Optional[ast.AST]]]) -> Tuple[Optional[str], Optional[ast.AST]]:
+        real = [x for x in parts if x[0] is not None]
+        return max(real, key=lambda x: _LEVEL[x[0]]) if real else (None, None)
+
+    def at_least(level: str, r: Tuple[Optional[str], Optional[ast.AST]]) -> Tuple[Optional[str], Optional[ast.AST]]:
+        return r if r[0] is None or _LEVEL[r[0]] >= _LEVEL[level] else (level, r[1])
+
+    def carries(x: ast.AST) -> bool:
+        return rec(x)[0] in ("same", "copy")
+
+    def key_ok(k: ast.AST, var: str) -> Optional[bool]:  # True: the key itself, False: str(key), None: anything else
+        if isinstance(k, ast.Name) and k.id == var:
+            return True
+        if isinstance(k, ast.Call) and call_name(k) == "str" and len(k.args) == 1 and not k.keywords and isinstance(k.args[0], ast.Name) and k.args[0].id == var:
+            return False
+        return None
+
+    def comp(x: ast.DictComp) -> Tuple[Optional[str], Optional[ast.AST]]:
+        if len(x.generators) != 1 or x.generators[0].ifs or x.generators[0].is_async:
+            return ("other", x)  # entries filtered / combined
+        gen = x.generators[0]
+        it, tg = gen.iter, gen.target
+        if isinstance(it, ast.Call) and call_attr(it) == "items" and isinstance(it.func, ast.Attribute) and not it.args and not it.keywords \
+                and isinstance(tg, ast.Tuple) and len(tg.elts) == 2 and all(isinstance(t, ast.Name) for t in tg.elts):
+            base = rec(it.func.value)
+            k, v = tg.elts[0].id, tg.elts[1].id
+            ko = key_ok(x.key, k)
+            if base[0] not in ("same", "copy") or ko is None:
+                return ("other", x)
+            if ko and isinstance(x.value, ast.Name) and x.value.id == v:
+                return at_least("copy", base)
+            return ("keywise", None) if any(isinstance(n, ast.Name) and n.id == v for n in ast.walk(x.value)) else ("other", x)
+        src = it
+        if isinstance(src, ast.Call) and call_name(src) in ("sorted", "list", "tuple") and len(src.args) == 1 and not src.keywords:
+            src = src.args[0]
+        if isinstance(src, ast.Call) and call_attr(src) == "keys" and isinstance(src.func, ast.Attribute) and not src.args:
+            src = src.func.value
+        if isinstance(tg, ast.Name) and carries(src):
+            k = tg.id
+            ko = key_ok(x.key, k)
+            own = lambda n: isinstance(n, ast.Subscript) and isinstance(n.slice, ast.Name) and n.slice.id == k and carries(n.value)
+            if ko and own(x.value):
+                return ("copy", None)
+            if ko is not None and any(own(n) for n in ast.walk(x.value)):
+                return ("keywise", None)
+        return ("other", x)
+
+    def rec(x: Optional[ast.AST]) -> Tuple[Optional[str], Optional[ast.AST]]:
+        if _is_empty(x):
+            return (None, None)
+        if isinstance(x, ast.Name):
+            if x.id == p:
+                return ("other", x) if rebound else ("same", None)
+            vals = _assigned(nf, x.id)
+            if not vals:
+                return ("other", x)
+            if x.id in busy:
+                return (None, None)
+            grown = mutation_sites(nf, {x.id})
+            if grown:
+                return ("other", grown[0][0])  # filled / edited after it was bound: not a plain carrier
+            busy.add(x.id)
+            try:
+                return worst([rec(v) for v in vals])
+            finally:
+                busy.discard(x.id)
+        if isinstance(x, ast.IfExp):
+            return worst([rec(x.body), rec(x.orelse)])
+        if isinstance(x, ast.BoolOp):
+            return worst([rec(v) for v in x.values]) if isinstance(x.op, ast.Or) else rec(x.values[-1])
+        if isinstance(x, ast.Call) and call_attr(x) == "cast" and len(x.args) == 2:
+            return rec(x.args[1])
+        op = _copied_operand(x)
+        if op is not None:
+            return at_least("copy", rec(op))
+        if isinstance(x, ast.DictComp):
+            return comp(x)
+        if isinstance(x, ast.Call) and depth > 0:
+            args = list(x.args) + [k.value for k in x.keywords]
+            held = [a for a in args if rec(a)[0] in ("same", "copy", "keywise")]
+            hit = _resolve_bound(repo, mod, x) if len(held) == 1 else None
+            if hit is not None:
+                m, f, b = hit
+                holders = [pn for pn, v in b.items() if v is held[0]]
+                cnf = normalize(repo, m, f, copyprop="all", loops=True)
+                rets = [r for r in walk_no_nested(cnf) if isinstance(r, ast.Return)]
+                if len(holders) == 1 and rets:
+                    inner = worst([_carry(repo, m, cnf, r.value, holders[0], depth - 1) for r in rets])
+                    if inner[0] is None:
+                        return ("other", x)
+                    if inner[0] == "other":
+                        return ("other", x)  # named in the caller's terms
+                    return at_least(rec(held[0])[0], inner)
+        return ("other", x)
+
+    return rec(e)
+
+
+def _record_entries(nf: ast.AST, rec_names: Set[str]):
+    """What *nf* puts into the mapping(s) held in *rec_names* (the record being written): (key -> [(value, statement,
+    expression-level condition or None)], statements that remove a constant key, statements whose effect on the
+    record is not understood)."""
+    entries: Dict[object, List[Tuple[ast.AST, ast.AST, Optional[Tuple[ast.AST, bool]]]]] = {}
+    removed: List[Tuple[object, ast.AST]] = []
+    opaque: List[ast.AST] = []
+
+    def literal(d: ast.AST, st: ast.AST, cond) -> None:
+        if isinstance(d, ast.IfExp):
+            literal(d.body, st, (d.test, True) if cond is None else cond)
+            literal(d.orelse, st, (d.test, False) if cond is None else cond)
+        elif isinstance(d, ast.Dict):
+            for k, v in zip(d.keys, d.values):
+                if k is None:
+                    literal(v, st, cond)
+                elif isinstance(k, ast.Constant):
+                    entries.setdefault(k.value, []).append((v, st, cond))
+                else:
+                    opaque.append(st)
+        elif isinstance(d, ast.Call) and call_name(d) in ("dict", "OrderedDict", "collections.OrderedDict") and len(d.args) <= 1:
+            for a in d.args:
+                literal(a, st, cond)
+            for k in d.keywords:
+                if k.arg is None:
+                    literal(k.value, st, cond)
+                else:
+                    entries.setdefault(k.arg, []).append((k.value, st, cond))
+        else:
+            opaque.append(st)
+
+    for n in walk_no_nested(nf):
+        if isinstance(n, (ast.Assign, ast.AnnAssign)) and n.value is not None:
+            for t in _flat_store_targets(n):
+                if isinstance(t, ast.Name) and t.id in rec_names:
+                    literal(n.value, n, None)
+                elif isinstance(t, ast.Subscript) and isinstance(t.value, ast.Name) and t.value.id in rec_names:
+                    if isinstance(t.slice, ast.Constant):
+                        entries.setdefault(t.slice.value, []).append((n.value, n, None))
+                    else:
+                        opaque.append(n)
+        elif isinstance(n, ast.AugAssign) and isinstance(n.target, ast.Name) and n.target.id in rec_names:
+            opaque.append(n)
+        elif isinstance(n, ast.Delete):
+            for t in n.targets:
+                if isinstance(t, ast.Subscript) and isinstance(t.value, ast.Name) and t.value.id in rec_names:
+                    if isinstance(t.slice, ast.Constant):
+                        removed.append((t.slice.value, n))
+                    else:
+                        opaque.append(n)
+        elif isinstance(n, ast.Call) and isinstance(n.func, ast.Attribute) and isinstance(n.func.value, ast.Name) and n.func.value.id in rec_names:
+            st = stmt_of(n)
+            if n.func.attr == "update":
+                for a in n.args:
+                    literal(a, st, None)
+                for k in n.keywords:
+                    if k.arg is None:
+                        literal(k.value, st, None)
+                    else:
+                        entries.setdefault(k.arg, []).append((k.value, st, None))
+            elif n.func.attr == "pop":
+                if n.args and isinstance(n.args[0], ast.Constant):
+                    removed.append((n.args[0].value, st))
+                else:
+                    opaque.append(st)
+            elif n.func.attr in ("clear", "popitem", "setdefault", "__setitem__", "__delitem__"):
+                opaque.append(st)
+    return entries, removed, opaque
+
+
+def _absent_atom(p: str, lenient: bool) -> Callable[[ast.AST], Optional[bool]]:
+    """Atom 'nothing was handed over in *p*': ``p is None`` (and, when *lenient*, ``not p``)."""
+    def a(e: ast.AST) -> Optional[bool]:
+        if isinstance(e, ast.Compare) and len(e.ops) == 1 and isinstance(e.left, ast.Name) and e.left.id == p and _is_none(e.comparators[0]):
+            if isinstance(e.ops[0], (ast.Is, ast.Eq)):
+                return True
+            if isinstance(e.ops[0], (ast.IsNot, ast.NotEq)):
+                return False
+        if lenient and isinstance(e, ast.Name) and e.id == p:
+            return False
+        if lenient and isinstance(e, ast.Call) and call_name(e) == "bool" and len(e.args) == 1 and isinstance(e.args[0], ast.Name) and e.args[0].id == p:
+            return False
+        return None
+    return a
+
+
+def _real_body(fn: ast.AST) -> bool:
+    """The function does something (not an interface stub: docstring / pass / ... / raise NotImplementedError)."""
+    for st in fn.body:
+        if isinstance(st, ast.Pass) or (isinstance(st, ast.Expr) and isinstance(st.value, ast.Constant)):
+            continue
+        if isinstance(st, ast.Raise) and st.exc is not None and "NotImplementedError" in ast.unparse(st.exc):
+            continue
+        return True
+    return False
+
+
+def handover_rules(repo: Repo, R: Report) -> None:
+    r_ho = R.rule("C09-D5-handover", "what _run hands to the run-space emitter and execute hands to the trace driver reaches the written record as it was handed over: spec id, inputs id, launch id, attempt and run index unchanged (numbers kept when they are 0), the run_space_end summary entry by entry, the run context key by key (values may be made JSON-safe one by one); run_space_end reaches the driver whenever there is one", 20)
+    SCALARS = ("run_space_spec_id", "run_space_inputs_id", "run_space_launch_id", "run_space_attempt", "run_space_index")
+    NEED = {**{k: "same" for k in SCALARS}, "summary": "copy", "run_space_context": "keywise"}
+    LOSS = {
+        "summary": "run_space_end does not report the summary the launch produced entry by entry: a count that is 0 (no run completed / nothing planned), or the status, is lost or altered",
+        "run_space_context": "pipeline_start does not carry the run's context key by key: keys are lost or the mapping is replaced by something else (e.g. the repr of the whole mapping as soon as one value is not JSON-native)",
+    }
+
+    def loss(k: str) -> str:
+        return LOSS.get(k, f"the record reports another {k} than the one of the launch / run it belongs to")
+
+    def annotation_is_int(fn: ast.AST, p: str) -> bool:
+        a = next((x for x in fn.args.posonlyargs + fn.args.args + fn.args.kwonlyargs if x.arg == p), None)
+        return a is not None and a.annotation is not None and any(isinstance(n, ast.Name) and n.id == "int" for n in ast.walk(a.annotation)) or \
+            (a is not None and isinstance(a.annotation, ast.Constant) and isinstance(a.annotation.value, str) and "int" in a.annotation.value)
+
+    # ---- emitter -> driver
+    emod = repo.module(EMITTER)
+    for meth, dmeth in (("emit_start", "on_run_space_start"), ("emit_end", "on_run_space_end")):
+        qual = f"RunSpaceTraceEmitter.{meth}"
+        nf = nfunc(repo, EMITTER, qual, loops=True)
+        me = nf.args.args[0].arg if nf.args.args else "self"
+        params = set(_params(nf))
+        dcalls = [c for c in calls_in(nf) if call_attr(c) == dmeth]
+        if not dcalls:
+            R.violation(r_ho, EMITTER, qual, f"<driver>.{dmeth}(...)", f"{meth} never hands the record to the driver: the launch is not bracketed in the trace", nf.lineno)
+            continue
+        for dc in dcalls:
+            for k in [k for k in NEED if k in params]:
+                v = kwarg(dc, k)
+                if v is None:
+                    R.violation(r_ho, EMITTER, qual, f"{dmeth}(..., {k}=...)", f"`{k}` is not handed to the driver: {loss(k)}", dc.lineno)
+                    continue
+                lvl, culprit = _carry(repo, emod, nf, v, k)
+                ok = lvl is not None and _LEVEL[lvl] <= _LEVEL[NEED[k]]
+                R.check(ok, r_ho, EMITTER, qual, f"{dmeth}(..., {k}=<{k} as received>)", f"the driver gets `{norm(culprit if culprit is not None else v)[:80]}` instead of the `{k}` the emitter received: {loss(k)}", getattr(v, "lineno", dc.lineno))
+        if meth == "emit_end":
+            # handed to the driver on every way through the method, except where there is no driver
+            g = CFG(nf, may_raise=lambda part: set())
+
+            def no_driver(e: ast.AST) -> Optional[bool]:
+                def is_driver(x: ast.AST) -> bool:
+                    outs = _origins_attr_terminal(nf, x)
+                    return bool(outs) and all(isinstance(o, ast.Attribute) and isinstance(o.value, ast.Name) and o.value.id == me for o in outs)
+                if isinstance(e, ast.Compare) and len(e.ops) == 1 and _is_none(e.comparators[0]) and is_driver(e.left):
+                    return True if isinstance(e.ops[0], (ast.Is, ast.Eq)) else False if isinstance(e.ops[0], (ast.IsNot, ast.NotEq)) else None
+                if isinstance(e, (ast.Name, ast.Attribute)) and is_driver(e):
+                    return False
+                return None
+            excused = {(n.id, lab) for n in g.nodes if n.kind in ("if", "while") and n.part is not None for lab in edges_guaranteeing(n.part, no_driver)}
+            call_nodes = {i for dc in dcalls for i in g.nodes_for(stmt_of(dc))}
+            bad = g.must_pass([g.entry], [g.ret_exit], lambda n: n.id in call_nodes, blocked_edges=excused)
+            R.check(not bad, r_ho, EMITTER, qual, f"{dmeth} on every way through {meth} with a driver", "run_space_end is withheld from the driver on some path that does not depend on the driver being absent: a launch (e.g. one without completed runs) is left without its closing record", dcalls[0].lineno, bad[0][1] if bad else None)
+
+    # ---- driver -> record: every class that implements the driver interface
+    drivers = []
+    for mod, qn, cls in repo.all_classes():
+        if any((dotted_name(b) or "").split(".")[-1] == "Protocol" for b in cls.bases):
+            continue
+        meths = [st for st in cls.body if isinstance(st, FuncNode) and st.name in JSONL_DRIVER_METHODS and _real_body(st)]
+        if meths:
+            drivers.append((mod, qn, meths))
+    if not drivers:
+        raise AnalysisError("no class implementing on_pipeline_start / on_run_space_start / on_run_space_end found")
+    for mod, cqn, meths in drivers:
+        repo.module(mod.rel)
+        for m in meths:
+            qual = f"{cqn}.{m.name}"
+            nf = nfunc(repo, mod.rel, qual, loops=True)
+            params = set(_params(nf))
+            rec_names = {t.id for n in walk_no_nested(nf) if isinstance(n, (ast.Assign, ast.AnnAssign)) and n.value is not None
+                         for t in _flat_store_targets(n) if isinstance(t, ast.Name)
+                         and any(isinstance(d, ast.Dict) and any(isinstance(k, ast.Constant) and k.value == "record_type" for k in d.keys) or
+                                 (isinstance(d, ast.Call) and call_name(d) == "dict" and any(k.arg == "record_type" for k in d.keywords)) for d in ast.walk(n.value))}
+            if not rec_names:
+                raise AnalysisError(f"{qual}: the record (mapping with a 'record_type') is not built here")
+            entries, removed, opaque = _record_entries(nf, rec_names)
+            g = CFG(nf)
+            store_stmts = {id(st) for vs in entries.values() for _v, st, _c in vs} | {id(st) for _k, st in removed} | {id(st) for st in opaque}
+            sinks = [n.id for n in g.nodes if n.kind == "stmt" and n.ast is not None and id(n.ast) not in store_stmts
+                     and any(isinstance(x, ast.Name) and x.id in rec_names and isinstance(x.ctx, ast.Load) for x in ast.walk(n.ast))]
+            if not sinks:
+                raise AnalysisError(f"{qual}: the record is built but never used (write site not found)")
+            for k in [k for k in NEED if k in params]:
+                got = entries.get(k, [])
+                gone = [st for kk, st in removed if kk == k]
+                if gone:
+                    R.violation(r_ho, mod.rel, qual, norm(gone[0])[:100], f"`{k}` is removed from the record before it is written: {loss(k)}", gone[0].lineno)
+                    continue
+                if not got:
+                    if opaque:
+                        raise AnalysisError(f"{qual}: no store of record[{k!r}] found and `{norm(opaque[0])[:60]}` fills the record in a way that is not understood")
+                    R.violation(r_ho, mod.rel, qual, f"record[{k!r}] = {k}", f"`{k}` is accepted by the driver but never written into the record: {loss(k)}", nf.lineno)
+                    continue
+                for v, st, _c in got:
+                    lvl, culprit = _carry(repo, mod, nf, v, k)
+                    ok = lvl is not None and _LEVEL[lvl] <= _LEVEL[NEED[k]]
+                    R.check(ok, r_ho, mod.rel, qual, f"record[{k!r}] = <{k} as received>", f"the record gets `{norm(culprit if culprit is not None else v)[:80]}` instead of the `{k}` the driver received: {loss(k)}", getattr(v, "lineno", st.lineno))
+                # written whenever a value was handed over: only `is None` (for a mapping / string also emptiness) excuses
+                lenient = not annotation_is_int(nf, k)
+                atom = _absent_atom(k, lenient)
+                excused = {(n.id, lab) for n in g.nodes if n.kind in ("if", "while") and n.part is not None for lab in edges_guaranteeing(n.part, atom)}
+                inline_ok = [(v, st, c) for v, st, c in got if c is None or ("F" if c[1] else "T") in edges_guaranteeing(c[0], atom)]
+                store_nodes = {i for _v, st, _c in inline_ok for i in g.nodes_for(st)}
+                bad = g.must_pass([g.entry], sinks, lambda n: n.id in store_nodes, blocked_edges=excused)
+                what = (f"`{k}` is left out of the record on a path that does not depend on it being None" + (" - e.g. when it is 0 (the first run of a launch, attempt 0): " if not lenient else ": ") + loss(k))
+                R.check(not bad, r_ho, mod.rel, qual, f"record[{k!r}] stored whenever {k} is given", what, got[0][1].lineno, bad[0][1] if bad else None)
 
 
 # --------------------------------------------------------------------------------- D3 freshness and linkage
